@@ -679,16 +679,29 @@ def rule_T3(ctx) -> None:
     for t in TYPE_NAMES:
         if t in ("map",):
             continue
-        paths = _load_paths(ctx, mod, t, 2)
+        paths = _load_paths(ctx, mod, t, 2, inline=_inline_pack_fmt(mod))
         inner = set()
+        pv = A(N("$parsed"), "value")
         for p in paths:
             for e in p.calls("_postprocess_single"):
                 if e.depth != 0:
                     continue
                 a = e.data[2]
                 w = a[0]
-                inwhile = in_packed_loop(e.loops)
-                inner.add((w[1] if w[0] == "c" else show(w), inwhile, _payload_kind(a[3]) if len(a) > 3 else "?"))
+                kind = _payload_kind(a[3]) if len(a) > 3 else "?"
+                # an element of a packed run: decoded from a *part* of the payload (a fixed-width slice or a varint at a position),
+                # in whatever kind of loop or comprehension; the whole payload handed over at once is the non-packed case
+                part = len(a) > 3 and a[3] != pv and contains(a[3], pv) and (kind == "varint" or kind.startswith("read:"))
+                inner.add((w[1] if w[0] == "c" else show(w), bool(part or in_packed_loop(e.loops)), kind))
+            # fixed-width elements may also be taken apart by struct.iter_unpack(<format of the type>, payload)
+            for e in p.events:
+                if e.kind == "call" and dotted(e.data[1]).endswith("iter_unpack") and len(e.data[2]) == 2 and e.data[2][1] == pv and e.data[2][0][0] == "c":
+                    import struct as _struct
+                    try:
+                        width = _struct.calcsize(e.data[2][0][1])
+                    except Exception:
+                        continue
+                    inner.add(({4: 5, 8: 1}.get(width, "?"), True, f"read:{width}"))
         want = t in SPEC_PACKABLE
         if want:
             ww = m.wire_of(t)
@@ -770,6 +783,8 @@ def _load_paths(ctx, mod, t: Optional[str], w: Optional[int], **kw) -> List[Path
     kw["inline"] = inline
     assume = dict(kw.pop("assume", None) or {})
     assume.setdefault(("op", "is", N("$parsed"), C(None)), False)   # a field was read (end of input is the other branch)
+    assume.setdefault(("op", "is", META, C(None)), False)           # the metadata of a known field exists
+    kw.setdefault("fork_ifexp", True)
     i = Interp(mod, bindings=b, aliases=al, alias_fn=load_alias_fn, loop_roles=load_roles, assume=assume, **kw)
     paths = i.run(load)
     ctx.count(len(paths))
